@@ -90,7 +90,7 @@ pub fn err_code(msg: &str) -> (u32, u64, u64) {
 
 pub fn lex_line(src: &str) -> String {
     match catch(|| lexer::lex(src)) {
-        Err(p) => format!("P {}", p),
+        Err(p) => format!("P {:?}", p),   // Debug: no raw CR/LF from the echoed source in the line protocol
         Ok(Ok(toks)) => {
             let t: Vec<String> = toks
                 .iter()
@@ -278,7 +278,7 @@ pub fn run(_args: &[String]) {
         match mode {
             "lex" => lex_line(&src),
             "ast" | "astfull" => match catch(|| ast_text(&src)) {
-                Err(p) => format!("PANIC {}", p),
+                Err(p) => format!("PANIC {:?}", p),
                 Ok(Err(e)) => e,
                 Ok(Ok(text)) => {
                     if mode == "astfull" {
